@@ -675,6 +675,22 @@ def run(ctx):
             mine_ = [q.param_by_index(f_, k) for k in range(len(f_.params))]
             okw_ = [x for x in passed if x in mine_] == mine_ and (f_.ret is None or 'void' in (f_.ret or '') or any(f_.strip(f_.ret_value(i)) == tg[0] for i in f_.returns() if f_.ret_value(i) is not None))
         ctx.check(okw_, R10, '%s/%d:forwards-its-arguments-in-order' % (f_.short, len(f_.params)), 'the wrapper does not forward all its arguments, in order, to the worker (and return its verdict)', f_.where)
-    ctx.floor(R10, 16)
+    # what goes into / comes out of the cache is a (pointer, length) string: no conversion through a NUL-terminated pointer alone
+    ncv = 0
+    for g in sorted([x for x in P.fns.values() if 'copy_traits' in (x.record or '') and x.body is not None and x.file.endswith('/src/cache_storage.cpp')], key=lambda x: x.id):
+        for i in g.all_nodes():
+            n_ = g.N(i)
+            if n_['k'] not in ('CXXConstructExpr', 'CXXTemporaryObjectExpr') or 'basic_string' not in (n_.get('callee') or n_.get('cn') or ''):
+                continue
+            args_ = [x for x in n_['ch'] if g.N(x)['k'] != 'CXXDefaultArgExpr']
+            a0 = g.N(g.strip(args_[0])) if args_ else None
+            if a0 is None or a0['k'] != 'CXXMemberCallExpr' or q.short_of(g.callee(g.strip(args_[0])) or '') not in ('c_str', 'data'):
+                continue        # only a string built directly from a character pointer (not the copy of such a temporary)
+            ncv += 1
+            ctx.check(len(args_) >= 2 and any(q.short_of(g.callee(j) or '') in ('size', 'length') for a_ in args_[1:] for j in g.calls(a_)), R10,
+                      '%s::%s:string-built-with-its-length#%d' % ((g.record or '').split('<')[0].rsplit('::', 1)[-1], g.short, ncv),
+                      'a cached value is rebuilt from a character pointer without its length: it is cut at the first NUL byte (the two back-ends then disagree)', g.loc(i))
+    ctx.require(ncv >= 1 or ctx.violations, 'C07.R10: copy_traits string conversions not found')
+    ctx.floor(R10, 17)
 
     ctx.floor(R6, 12)
